@@ -35,6 +35,7 @@ PARTIAL = []
 REFUTED = []
 CASE_TIMEOUT = 8.0
 ALWAYS_SEARCH = False
+COQCHK = True
 
 KW = {'visited_results_nodelist': 'nl', 'visited_results_arguments': 'args',
       'visited_results_body': 'body', 'visited_results_argnlist': 'argn'}
